@@ -5,7 +5,9 @@
    stream S-mhash (mhash under the observed string hashes = hash(m); marker_eqb = ==).
    Side condition nodup_vals: the value list of a grouped atom holds no value twice — what OrderedSet's constructor
    establishes; S-mhash checks it on every marker the code returns.  Without it the statement is false of the model
-   (C13h_dup_refuted: set_eqb is Set.__eq__, which cannot tell [a; a; b] from [a; b; b]). *)
+   (C13h_dup_refuted: on value lists with repetitions equality as sets cannot tell [a; a; b] from [a; b; b]; set_eqb checks
+   both inclusions, Python's Set.__eq__ the lengths and one inclusion -- the two agree on duplicate-free lists, the only
+   ones an OrderedSet can hold without mutating its private list). *)
 From Coq Require Import List Bool ZArith NArith Permutation.
 From Verif Require Import PyRes Str Marker MarkerHash MarkerBase MarkerHashSound MarkerNodup.
 Import ListNotations.
@@ -38,8 +40,11 @@ Qed.
 
 (* the side condition holds of every marker built from atoms, the universal and the empty marker by &, |, MultiMarker.of and
    MarkerUnion.of (what parse_marker folds with), only() and exclude() / without_extras() — for every fuel, set order and merge
-   oracle whose results satisfy it (a merged version atom is an atom, Any or Empty in the code: checked on every row) — so
-   ==-equal results of the library hash alike. *)
+   oracle whose results satisfy it (hypothesis vmerge_nodup: a merged version atom is an atom, Any or Empty in the code; the
+   S-mark stream checks that on every row, and S-mhash checks nodup_vals itself on every marker it observes) and every set
+   iteration order (hypothesis perm_perm) — so ==-equal results of these operations hash alike.  The helpers that can also be
+   called directly (union_simplify, intersect_simplify, cnf, dnf, ...) are covered inside the induction (level_nodup) but
+   are not constructors of hreach; the raw class constructors are outside (MultiMarker(...) flattens and copies). *)
 Section Reach.
   Variable vmerge : bool -> atom -> atom -> option marker.
   Variable vcontains : atom -> str -> bool.
